@@ -272,7 +272,7 @@ func c12Cfg() *DeclCfg {
 	return &DeclCfg{
 		MaxDepth: 3, MaxFan: 2, PCmds: 60, Types: c12Types, OptsMin: 1, OptsMax: 4, SubGroupsMax: 2, NestMax: 2,
 		PNamespace: 30, PShortOnly: 15, PLongOnly: 25, PDefault: 30, PDefault2: 30, PBase: 40, PHidden: 8, PHiddenGrp: 8, PHiddenCmd: 8,
-		PInline: 25, PCmdTwin: 20, PExec: 20, PByTag: 50, PSubOptional: 100, PAliases: 10, PDesc: 50, PIniName: 30, PNoIni: 8, PRequired: 5, PDupField: 25,
+		PInline: 25, PNameless: 8, PDupIniName: 25, PCmdTwin: 20, PExec: 20, PByTag: 50, PSubOptional: 100, PAliases: 10, PDesc: 50, PIniName: 30, PNoIni: 8, PRequired: 5, PDupField: 25,
 		ParserOpts: []flags.Options{0, flags.HelpFlag, flags.Default &^ flags.PrintErrors},
 	}
 }
